@@ -173,6 +173,8 @@ def gen_case(rng, ctx) -> Dict:
         for tf in [hcfg.get("tf")] + tfs:
             if tf and rows and (rows[-1]["ts"] - rows[0]["ts"]) // (gen.UNITS[tf[0]] * int(tf[1:])) > 300:
                 hcfg.pop("fill", None)
+    # timeframes are accepted in either case
+    tfs = [t.lower() if t and rng.random() < 0.25 else t for t in tfs]
     return {"specs": specs, "tfs": tfs, "rows": rows, "hcfg": hcfg, "init": init_n, "chunks": chunks,
             "form": rng.choice(["object", "object", "settings", "dict"])}
 
